@@ -223,6 +223,26 @@ theorem c09_optional_defaults (env : Env) (hwf : WF env = true) (es : List (KeyK
   · rw [h1] at h; cases h
   · rw [h1] at h; cases h
 
+/-- **… plus Optional defaults, at every depth**: the result of a passing match has the shape of
+    the target — a list pattern returns the items one by one, each as some alternative returns
+    it; a tuple pattern position by position; a dict pattern (whose key patterns hand keys back)
+    the target's entries in order, same keys, each value as the value pattern of some spec key
+    returns it, followed by exactly the defaults of the Optional keys the target lacks — and a
+    pure pattern returns the target.  `plusDefaults` is defined by recursion on the pattern,
+    without reference to the evaluator or the sequential reading. -/
+theorem c09_plus_defaults (env : Env) (hwf : WF env = true) (p : Spec) (t r : V)
+    (hc : ctorErr p = none) (hw : wfV t = true) (h : (matchGlom env p none t).1 = .ok r) :
+    plusDefaults env.cls p t r = true := by
+  have hr := c09_refines env hwf p none t hc
+  rcases hr.cases with ⟨a, l, h1, h2⟩ | ⟨e, og, l, h1, h2, _⟩ | ⟨e, l, h1, h2, _⟩
+  · rw [h1] at h; injection h with h; subst h
+    have hd : (denote env.cls p t).1 = .pass a := by
+      have := congrArg Prod.fst h2
+      simpa [denote, withDefault_none] using this
+    exact plus_den env.cls p t a hw hd
+  · rw [h1] at h; cases h
+  · rw [h1] at h; cases h
+
 /-- **matches() and verify() agree with that outcome**: `verify` is the same call; `matches`
     is True exactly when it returns, False when it raises a GlomError. -/
 theorem c09_matches_verify_agree (env : Env) (f : Facts9) (hwf9 : WF9 env f = true)
@@ -279,7 +299,7 @@ theorem c09_model_checks (env : Env) (f : Facts9) (hwf : WF env = true) (hwf9 : 
   unfold checkC09
   rw [hc]
   simp only [observe9, verify, Bool.and_eq_true, V.beq_refl, and_true]
-  refine ⟨⟨⟨⟨hsat, hsat⟩, ?_⟩, ?_⟩, ?_⟩
+  refine ⟨⟨⟨⟨⟨hsat, hsat⟩, ?_⟩, ?_⟩, ?_⟩, ?_⟩
   · -- matches
     rcases hr.cases with ⟨a, l, h1, h2⟩ | ⟨e, og, l, h1, h2, hcl⟩ | ⟨e, l, h1, h2, hg⟩
     · simp [h2, matchesM, h1, obsOfMatches, observe, obsIsOk]
@@ -317,36 +337,8 @@ theorem c09_model_checks (env : Env) (f : Facts9) (hwf : WF env = true) (hwf9 : 
       | ok r =>
         have := c09_unchanged env hwf p t r hc hpp.1.1 hpp.2 hm
         simp [observe, hm, this, valEq_refl]
-
-/-! ### histories: one Match object, many calls, registrations in between -/
-
-/-- **One call, checker form** (what the driver evaluates on every call of a sequence / history):
-    against the class table of the moment the outcome is the denoted verdict, pass / reject is
-    exactly `conforms`, and a default-free pattern returns the target. -/
-theorem c09_call_checks (env : Env) (hwf : WF env = true) (p : Spec) (d : Option Arg) (t : V)
-    (hc : ctorErr p = none) :
-    checkCall env.cls p d t (observe env (matchGlom env p d t)) = true := by
-  have hr := c09_refines env hwf p d t hc
-  have hsat := rel_obsSat hr
-  unfold checkCall
-  simp only [Bool.and_eq_true]
-  refine ⟨⟨hsat, ?_⟩, ?_⟩
-  · cases hd : constDefaults p with
-    | false => simp
-    | true =>
-      simp only [Bool.not_true, Bool.false_or]
-      cases hv : (denote env.cls (.matchS p d) t).1 with
-      | fault c => rfl
-      | pass v =>
-        have := c09_denote_conforms env.cls p d t hc hd (by rw [hv]; rfl)
-        rw [hv] at this
-        simpa [isPass] using this.symm
-      | reject o =>
-        have := c09_denote_conforms env.cls p d t hc hd (by rw [hv]; rfl)
-        rw [hv] at this
-        simp only [isPass] at this
-        simp [← this]
-  · cases hpp : (pureP p && d.isNone && wfV t) with
+  · -- plus Optional defaults
+    cases hpp : (d.isNone && wfV t) with
     | false => simp
     | true =>
       simp only [Bool.and_eq_true] at hpp
@@ -356,18 +348,20 @@ theorem c09_call_checks (env : Env) (hwf : WF env = true) (p : Spec) (d : Option
       cases hm : (matchGlom env p none t).1 with
       | error e => simp [observe, hm]
       | ok r =>
-        have := c09_unchanged env hwf p t r hc hpp.1.1 hpp.2 hm
-        simp [observe, hm, this, valEq_refl]
+        have := c09_plus_defaults env hwf p t r hc hpp.2 hm
+        simp [observe, hm, this]
+
+/-! ### histories: one Match object, many calls, registrations in between -/
 
 /-- **Histories** (checker theorem, the form evaluated on the implementation's observations).
     One Match object is applied to any sequence of targets — instances of the same few classes
     among them, conforming and not — while classes are registered as virtual subclasses of ABCs
-    in between: every call decides its target by `isinstance` *as it is at that call*.  Nothing
-    the matcher saw before (the answer for another instance of the same class, a failed match
-    before the registration) has any influence.  For all histories of any length, from any
-    class table. -/
-theorem c09_history_checks (env : Env) (hwf : WF env = true) (p : Spec) (d : Option Arg)
-    (hc : ctorErr p = none) :
+    in between: every call decides its target by `isinstance` *as it is at that call*, `verify`
+    and `matches` agree with it, and the target is as it was.  Nothing the matcher saw before (the
+    answer for another instance of the same class, a failed match before the registration) has
+    any influence.  For all histories of any length, from any class table. -/
+theorem c09_history_checks (env : Env) (f : Facts9) (hwf : WF env = true) (hwf9 : WF9 env f = true)
+    (p : Spec) (d : Option Arg) (hc : ctorErr p = none) :
     ∀ (steps : List HStep) (ct : ClassTable), checkHist p d steps ct (obsHist env p d steps ct) = true := by
   intro steps
   induction steps with
@@ -376,11 +370,11 @@ theorem c09_history_checks (env : Env) (hwf : WF env = true) (p : Spec) (d : Opt
     intro ct
     cases st with
     | call t =>
-      have h1 := c09_call_checks (env.withCls ct) (by rw [WF_withCls]; exact hwf) p d t hc
-      simp only [obsHist, runHist, List.map_cons, Option.map_some, checkHist, Bool.and_eq_true]
+      have h1 := c09_model_checks (env.withCls ct) f (by rw [WF_withCls]; exact hwf) hwf9 p d t hc
+      simp only [obsHist, checkHist, Bool.and_eq_true]
       exact ⟨h1, ih ct⟩
     | register a k =>
-      simp only [obsHist, runHist, List.map_cons, Option.map_none, checkHist]
+      simp only [obsHist, checkHist]
       exact ih (registerCls ct a k)
 
 /-- the type rule asks `isinstance(target, type)` about *this* target, now: it passes exactly
@@ -574,14 +568,13 @@ example : (matchGlom genEnv (.list [.ty "HasLabel"]) none (.list [.obj "Rec#a+la
 private def exHist : List HStep :=
   [.call (.obj "K1#x"), .register "A0" "K0", .call (.obj "K1#x"), .call (.obj "K2#y")]
 private def exTable : ClassTable := worldRows genEnv.cls [("K1", "K0")]
-example : obsHist genEnv (.ty "A0") none exHist exTable =
-    [some (.exc "TypeMatchError" true true true true false false []), none,
-     some (.ok (.obj "K1#x") []), some (.exc "TypeMatchError" true true true true false false [])] := by decide
+private def tmErr : Obs := .exc "TypeMatchError" true true true true false false []
+example : (obsHist genEnv (.ty "A0") none exHist exTable).map (Option.map (·.main)) =
+    [some tmErr, none, some (.ok (.obj "K1#x") []), some tmErr] := by decide
 -- what an implementation shows that remembers the first answer for (K1, A0): rejected by the checker
 example : checkHist (.ty "A0") none exHist exTable
-    [some (.exc "TypeMatchError" true true true true false false []), none,
-     some (.exc "TypeMatchError" true true true true false false []),
-     some (.exc "TypeMatchError" true true true true false false [])] = false := by decide
+    [some ⟨tmErr, tmErr, some false, .obj "K1#x"⟩, none,
+     some ⟨tmErr, tmErr, some false, .obj "K1#x"⟩, some ⟨tmErr, tmErr, some false, .obj "K2#y"⟩] = false := by decide
 -- hypotheses of c09_sees_registration are satisfiable
 example : exTable.any (·.1 == (V.obj "K1#x").cls) = true ∧ (exTable.mro (V.obj "K1#x").cls).contains "K0" = true := by
   decide
